@@ -13,10 +13,10 @@ SPEC = dict(
          "(case-folded) query AND whose fresh answer differs from that previous answer ('answer-changing delta'), distinct by (history, query, field, step).",
     floors=T({"hit-steps": 1500, "miss-steps": 1500, "repeat-hit": 300, "case-variant-hit": 50, "op-update-database": 100, "op-advance": 100,
               "answer-changing-delta:AllPlatforms": 20, "answer-changing-delta:TopTermsCap": 5, "answer-changing-delta:Limit": 20,
-              "answer-changing-delta:UseNLP": 20, "answer-changing-delta:PipelineOnly": 20, "distinct_nontrivial": 300},
+              "answer-changing-delta:UseNLP": 20, "answer-changing-delta:PipelineOnly": 20, "answer-changing-delta:Platforms": 10, "answer-changing-delta:NoCrossPlatform": 10, "distinct_nontrivial": 300},
              {"hit-steps": 15000, "miss-steps": 15000, "repeat-hit": 3000, "case-variant-hit": 500, "op-update-database": 1000, "op-advance": 1000,
               "answer-changing-delta:AllPlatforms": 200, "answer-changing-delta:TopTermsCap": 50, "answer-changing-delta:Limit": 200,
-              "answer-changing-delta:UseNLP": 200, "answer-changing-delta:PipelineOnly": 200, "distinct_nontrivial": 3000}),
+              "answer-changing-delta:UseNLP": 200, "answer-changing-delta:PipelineOnly": 200, "answer-changing-delta:Platforms": 100, "answer-changing-delta:NoCrossPlatform": 100, "distinct_nontrivial": 3000}),
     assumptions=["whitespace-padded variants are outside the property's quantifier (repeats and case variants) and are not generated",
                  "virtual time via the VerifAdvance hook (entries aged under the cache's own lock); no wall-clock in the oracle"],
 )
